@@ -55,9 +55,9 @@ impl Prop for C08 {
         f.push(Family::new(
             "literals",
             Mode::Full,
-            "each literal of [0.5, 1.5, 0.25, 12.5, 0.001, 999.995, 1234.5, 1000, 1000000, 1234567.125, -2.5, -1234.5, 1234567890.255, 1099511627776, 2500000000000.5, 999999999999999] alone, plain and (where the integer part has more than three digits) grouped, under each of the 4 conventions (',' '.'), ('.' ','), ('.' ''), (',' ''): denotes the intended number",
+            "each literal of [0.5, 1.5, 0.25, 12.5, 0.001, 999.995, 1234.5, 1000, 1000000, 1234567.125, -2.5, -1234.5, 1234567890.255, 1099511627776, 2500000000000.5, 999999999999999, -100000, -250000.5, +250000] alone, plain and (where the integer part has more than three digits) grouped, under each of the 4 conventions (',' '.'), ('.' ','), ('.' ''), (',' ''): denotes the intended number",
             move |ch| {
-                let c = *ch.pick(&["0.5", "1.5", "0.25", "12.5", "0.001", "999.995", "1234.5", "1000", "1000000", "1234567.125", "-2.5", "-1234.5", "1234567890.255", "1099511627776", "2500000000000.5", "999999999999999"]);
+                let c = *ch.pick(&["0.5", "1.5", "0.25", "12.5", "0.001", "999.995", "1234.5", "1000", "1000000", "1234567.125", "-2.5", "-1234.5", "1234567890.255", "1099511627776", "2500000000000.5", "999999999999999", "-100000", "-250000.5", "+250000"]);
                 let g = ch.flag();
                 let k = ch.choose(4);
                 Some(Case::Literal(c.to_string(), g, k))
@@ -161,7 +161,7 @@ impl Prop for C08 {
             ));
         }
         {
-            let fixed: Vec<Vec<T>> = ["V:rate N:7.5 = N:40 NL V:rate N:7.5 O:* N:2", "V:lot N:1000g = N:12.5 NL V:lot N:1000g O:* N:4", "V:fee N:2.5 = N:100 C:usd NL V:fee N:2.5 K:to C:try", "V:cable N:0.75 = N:2.5 W:km NL V:cable N:0.75 K:to W:m", "N:1099511627776g O:/ N:1024g", "V:budget = N:2500000000000g NL V:budget O:/ N:1000g", "N:1234567890.255g O:+ N:1", "N:1234567890123g C:usd O:* N:2", "N:999999999999999g O:- N:999999999999998g", "N:1000000000000g W:mm K:to W:km"].iter().map(|t| corpus::tpl(t)).collect();
+            let fixed: Vec<Vec<T>> = ["V:rate N:7.5 = N:40 NL V:rate N:7.5 O:* N:2", "V:lot N:1000g = N:12.5 NL V:lot N:1000g O:* N:4", "V:fee N:2.5 = N:100 C:usd NL V:fee N:2.5 K:to C:try", "V:cable N:0.75 = N:2.5 W:km NL V:cable N:0.75 K:to W:m", "N:1099511627776g O:/ N:1024g", "V:budget = N:2500000000000g NL V:budget O:/ N:1000g", "N:1234567890.255g O:+ N:1", "N:1234567890123g C:usd O:* N:2", "N:999999999999999g O:- N:999999999999998g", "N:1000000000000g W:mm K:to W:km", "N:500000g O:- N:100000g", "V:x = N:-120500g NL V:x O:* N:2", "N:3 O:* N:-250000g", "N:1.5 G:, N:2.5", "V:x = N:1200.5 G:, N:0.5 NL V:x O:* N:2"].iter().map(|t| corpus::tpl(t)).collect();
             let nf = fixed.len();
             f.push(Family::new(
                 "names-with-literals-and-large-operands",
@@ -190,7 +190,7 @@ impl Prop for C08 {
         f.push(Family::new(
             "switched-conventions",
             Mode::Full,
-            &format!("ONE calculator whose separators are switched with set_decimal_seperator / set_thousand_separator between evaluations: every sequence of 2..={} (convention, order of the two setter calls) steps; after every switch each of the 16 literals (plain and grouped) and three lines (a product, a currency conversion, a unit conversion through a variable) written in the current convention is evaluated: it denotes the intended number whatever was read before the switch", ds),
+            &format!("ONE calculator whose separators are switched with set_decimal_seperator / set_thousand_separator between evaluations: every sequence of 2..={} (convention, order of the two setter calls) steps; after every switch each of the 19 literals (plain and grouped) and three lines (a product, a currency conversion, a unit conversion through a variable) written in the current convention is evaluated: it denotes the intended number whatever was read before the switch", ds),
             move |ch| {
                 let n = 2 + ch.choose(ds - 1);
                 let mut seq = Vec::new();
@@ -208,7 +208,7 @@ impl Prop for C08 {
         let convs = conventions();
         match case {
             Case::Switched(seq) => {
-                let lits = ["0.5", "1.5", "0.25", "12.5", "0.001", "999.995", "1234.5", "1000", "1000000", "1234567.125", "-2.5", "-1234.5", "1234567890.255", "1099511627776", "2500000000000.5", "999999999999999"];
+                let lits = ["0.5", "1.5", "0.25", "12.5", "0.001", "999.995", "1234.5", "1000", "1000000", "1234567.125", "-2.5", "-1234.5", "1234567890.255", "1099511627776", "2500000000000.5", "999999999999999", "-100000", "-250000.5", "+250000"];
                 let mut calc = ctx.fresh(&Cfg::default());
                 let mut v = Verdict { input: format!("switch {:?}", seq.iter().map(|k| format!("{}|{}{}", convs[*k % 4].dec, convs[*k % 4].thou, if *k >= 4 { " (thousands first)" } else { "" })).collect::<Vec<_>>()), class: "literal-compared", compared: true, expected: "every literal denotes the intended number after every switch".into(), ..Default::default() };
                 let mut trace = String::new();
